@@ -289,8 +289,22 @@ class DefaultRealizationFilter(RealizationFilter):
         failed_realizations = np.isnan(constraints[..., 0])
         constraints = np.nan_to_num(constraints[..., self._filter_options.sort])
         assert self._enopt_config.nonlinear_constraints is not None
+        lower_bound = self._enopt_config.nonlinear_constraints.lower_bounds[
+            self._filter_options.sort
+        ]
+        upper_bound = self._enopt_config.nonlinear_constraints.upper_bounds[
+            self._filter_options.sort
+        ]
+        # The worst realizations are sorted first. Which ones are the worst
+        # depends on the type of the constraint:
+        if abs(upper_bound - lower_bound) < 1e-15:  # noqa: PLR2004
+            values = -np.abs(constraints - lower_bound)
+        elif np.isfinite(lower_bound) and not np.isfinite(upper_bound):
+            values = constraints
+        else:
+            values = -constraints
         return _get_cvar_weights_from_percentile(
-            -constraints, failed_realizations, self._filter_options.percentile
+            values, failed_realizations, self._filter_options.percentile
         )
 
 
@@ -322,9 +336,13 @@ def _get_cvar_weights_from_percentile(
     # nan values are sorted to the end, drop them:
     indices = indices[: np.count_nonzero(~failed_realizations)]
 
+    if indices.size == 0:
+        return np.zeros(values.size)
+
     p_max = 1.0 / indices.size
-    n_var = int(percentile * indices.size)
-    p_var = percentile - n_var * p_max
+    # Guard against rounding errors when percentile * size is an integer:
+    n_var = int(np.floor(percentile * indices.size + 1e-9))
+    p_var = max(percentile - n_var * p_max, 0.0)
 
     weights = np.zeros(values.size)
     weights[indices[:n_var]] = p_max
